@@ -17,6 +17,7 @@ META = {
     "trusted_base": ["tokio broadcast recv future and tokio RwLock wake the registered waker", "user-supplied limit/count streams obey the Stream contract", "rustc MIR construction"],
     "assumptions": [],
 }
+META["explanation"] += " The dynamic limit / count input of Head, Tail and Skip is an eyeball Subscriber: its poll functions are checked with the same typestate (R02.7) and the leaf's pending => registered clause (R02.2)."
 
 
 def run(ctx):
@@ -35,3 +36,8 @@ def run(ctx):
         wakers.check_rearm(ctx, "R14.3", f, sites)
     floor = 2 + (6 if UT in have else 0) + (2 if (EY in have and ctx.has_async) else 0)
     ctx.floor("R14.1", n, floor)
+    # the dynamic limit / count of Head, Tail and Skip is an eyeball Subscriber: its poll paths are inputs of the adapters
+    if EY in have:
+        from . import groups, leaf
+        leaf.check_pending_registered(ctx, "R02.2")
+        groups.eyeball_poll_typestate(ctx)
